@@ -151,6 +151,22 @@ int main() {
                   f = s[2] - vp;
         const Sym det3 = a * d - b * b, det2 = a * f - c * c, det1 = d * f - e * e;
         verif::output("minor", k == 0 ? det3 : (k == 1 ? det1 : det2));
+        // unnormalised eigenvector and its norm, as computed by the branch
+        Sym x0, x1, x2;
+        if (k == 0) {
+          x0 = (b * e - c * d) / det3;
+          x1 = (b * c - a * e) / det3;
+          x2 = Sym(1);
+        } else if (k == 1) {
+          x0 = Sym(1);
+          x1 = (c * e - b * f) / det1;
+          x2 = (b * e - c * d) / det1;
+        } else {
+          x0 = (c * e - b * f) / det2;
+          x1 = Sym(1);
+          x2 = (b * c - a * e) / det2;
+        }
+        verif::output("nr", std::sqrt(x0 * x0 + x1 * x1 + x2 * x2));
       }
     }
   }
